@@ -19,6 +19,8 @@ import (
 var c11atoms = []string{
 	"a", "b", "ab", "x", "A", ".", "[ab]", "[a-c]", "[^a]", `\d`, "(a)", "(?:a)", "(a|b)", "a|b", "(ab|c)", "(a|)",
 	"a?", "a*", "a+", "a{2}", "a{1,2}", "a{0}", `[^\s\S]`, "()", `\b`, "[ab]{2}", "(?i)a", "(?i:a)", "(?i)[a]", `\.`, `\|`, "", "[a]", "[aA]", `\n`, "a/b", `\x61`, "[ab][bc]",
+	// the 100-literal limit from both sides: [a-j][a-j] is exactly 100 strings, [a-k][a-j] is 110, ([a-j][a-j]|x) is 101
+	"[a-j]", "[a-k]", "[a-j][a-j]", "|x",
 }
 
 // contexts wrap a body; %s is the body
@@ -161,6 +163,15 @@ func c11eval(c c11Case) ([]ev.Finding, bool, bool) {
 	}
 	cands := c11strings[c.L]
 	extra := []string{}
+	if strings.Contains(src, "[a-j]") || strings.Contains(src, "[a-k]") {
+		// the wide classes reach beyond the candidate alphabet: every string of length <= 2 over a..l
+		for x := 'a'; x <= 'l'; x++ {
+			extra = append(extra, string(x))
+			for y := 'a'; y <= 'l'; y++ {
+				extra = append(extra, string([]rune{x, y}))
+			}
+		}
+	}
 	for _, l := range subst {
 		extra = append(extra, l, l+"x", "x"+l, "x\n"+l, l+"\nx", l+"\n")
 	}
